@@ -299,6 +299,22 @@ func gen(r *vlib.R, n int, tier string, emit func(string)) {
 		emit(fmt.Sprintf("share walk %d %s", 250+r.Intn(100), strings.Join(ids, ",")))
 		n--
 	}
+	// 2f. transports that keep the reply message after the serve (DoH): pooled chains, shared view records
+	rts := 5
+	if thorough {
+		rts = 25
+	}
+	for i := 0; i < rts; i++ {
+		var ks []string
+		for j, k := 0, 4+r.Intn(14); j < k; j++ {
+			ks = append(ks, vlib.Pick(r, []string{"ok", "ok", "hit", "pn", "pn", "nr", "vx", "vx", "vw", "sh"}))
+		}
+		if i == 0 {
+			ks = []string{"pn", "pn", "vx", "vx", "ok"}
+		}
+		emit(fmt.Sprintf("retain seq %d %s", r.U64()%1000000, strings.Join(ks, ",")))
+		n--
+	}
 	// 2e. decoded entry: escaped panics, then overlapping requests on the pooled chains
 	for i := 0; i < 2; i++ {
 		emit(fmt.Sprintf("pool escape %d %d", r.U64()%1000000, 4+r.Intn(5)))
